@@ -196,6 +196,24 @@ def find__all__(module):
     return names
 
 
+def is_only_declared(binding):
+    """
+    Is this module level name never bound in the module?
+
+    A name that is declared in global statements but never assigned, imported or defined anywhere in the module
+    is bound from outside the module, or it is a builtin.
+    """
+
+    for node in binding.references:
+        if isinstance(node, ast.Global):
+            continue
+        if isinstance(node, ast.Name) and isinstance(node.ctx, ast.Load):
+            continue
+        return False
+
+    return any(isinstance(node, ast.Global) for node in binding.references)
+
+
 def allow_rename_globals(module, rename_globals=False, preserve_globals=None):
 
     if preserve_globals is None:
@@ -204,7 +222,7 @@ def allow_rename_globals(module, rename_globals=False, preserve_globals=None):
     preserve_globals.extend(find__all__(module))
 
     for binding in module.bindings:
-        if rename_globals is False or binding.name in preserve_globals:
+        if rename_globals is False or binding.name in preserve_globals or is_only_declared(binding):
             binding.disallow_rename()
 
 
